@@ -26,19 +26,19 @@ PLANS = {
     "C01": plan(shards(20, 300)),
     "C02": plan(shards(20, 300)),
     "C03": plan(shards(20, 300)),
-    "C04": plan(shards(20, 300, mode="light", n=12), shards(20, 300, mode="actor", n=4)),
+    "C04": plan(shards(20, 300, mode="light", n=10), shards(20, 300, mode="actor", n=3), shards(25, 300, mode="stack", n=3)),
     "C05": plan(shards(20, 300)),
     "C06": plan(shards(20, 360, mode="images", n=14), shards(15, 240, mode="kill", n=2), tool("memcheck.sh", ["C06"], 3000)),
     "C07": plan(shards(15, 240)),
     "C08": plan(shards(20, 300)),
     "C09": plan(shards(20, 300), tool("miri.sh", ["c09"], 3000), tool("memcheck.sh", ["C09"], 3000)),
     "C10": plan(shards(30, 480, mode="script", n=10), shards(20, 300, mode="faults", n=3),
-                shards(12, 120, mode="shutdown-race", n=1), shards(20, 240, mode="net", n=2)),
+                shards(12, 120, mode="shutdown-race", n=1), shards(20, 240, mode="net", n=2), shards(20, 240, mode="stack", n=1)),
     "C11": plan(shards(20, 360, mode="two", n=10), shards(20, 360, mode="three", n=3), shards(20, 300, mode="net", n=3)),
-    "C12": plan(shards(20, 300), tool("miri.sh", ["c12"], 3000), tool("tsan.sh", ["C12"], 3000)),
+    "C12": plan(shards(20, 300, n=14), shards(20, 300, mode="stack", n=2), tool("miri.sh", ["c12"], 3000), tool("tsan.sh", ["C12"], 3000)),
     "C13": plan(shards(15, 240)),
     "C14": plan(shards(20, 300), tool("tsan.sh", ["C14"], 3000)),
-    "C15": plan(shards(12, 180, n=13), shards(12, 180, mode="live", n=3)),
+    "C15": plan(shards(12, 180, n=11), shards(12, 180, mode="live", n=3), shards(20, 240, mode="stack", n=2)),
     "C16": plan(shards(15, 240, n=13), shards(15, 240, mode="engine", n=3)),
     "C17": plan(shards(12, 180)),
     "C18": plan(shards(15, 240)),
